@@ -1,7 +1,7 @@
 (* C19: proofs about the model fragments REGENERATED from analyzer/analyzer.go on this run (Gen_Adapter.v). *)
 From Coq Require Import List ZArith Lia Bool.
 From RG.Base Require Import Outcome GoSlice.
-From RG.Adapter Require Import Str Model Conc.
+From RG.Adapter Require Import Str Model Conc NewEngine.
 From RGW Require Import Gen_Adapter.
 Import ListNotations.
 Local Open Scope Z_scope.
@@ -104,3 +104,39 @@ Proof.
   intros prefix name filter. unfold gen_filter_call_site, final_name. cbn [load_group_head].
   destruct prefix; cbn [app]; match goal with |- context [filter ?x] => destruct (filter x) end; reflexivity.
 Qed.
+
+(* ---- newEngine's tail *)
+(* the text handed to Engine.Load for -e: probe the regenerated function with an engine that answers with the text it got *)
+Definition gen_e_probe (flagE : bytes) : bytes :=
+  match gen_new_engine_tail [] flagE (fun _ => inr []) (fun _ _ d => Some d) with Ok (NEFail _ d) => d | _ => [] end.
+
+Fixpoint until_marker (s : bytes) : bytes := match s with [] => [] | c :: r => if c =? 0 then [] else c :: until_marker r end.
+Fixpoint after_marker (s : bytes) : bytes := match s with [] => [] | c :: r => if c =? 0 then r else after_marker r end.
+Definition gen_e_head : bytes := Eval vm_compute in until_marker (gen_e_probe [0]).
+Definition gen_e_tail : bytes := Eval vm_compute in after_marker (gen_e_probe [0]).
+Definition gen_e_text (flagE : bytes) : bytes := gen_e_head ++ flagE ++ gen_e_tail.
+
+Lemma gen_new_engine_tail_is_spec flagRules flagE read_file load :
+  gen_new_engine_tail flagRules flagE read_file load = Ok (new_engine_spec read_file load gen_e_text flagRules flagE).
+Proof.
+  unfold gen_new_engine_tail, new_engine_spec.
+  destruct (bytes_eqb flagRules []) eqn:E; cbn [negb].
+  - destruct (bytes_eqb flagE []) eqn:E2; cbn [negb].
+    + reflexivity.
+    + unfold sprintf_o.
+      match goal with |- context [sprintf ?f [AStr flagE]] =>
+        replace (sprintf f [AStr flagE]) with (Some (gen_e_text flagE)) by (vm_compute; reflexivity) end.
+      cbn [bind app]. unfold e_name. destruct (load [] [101] (gen_e_text flagE)); reflexivity.
+  - unfold names_of, comma.
+    match goal with |- ne_for ?body ?xs [] ?k = _ =>
+      assert (H : forall ys l, ne_for body ys l k = Ok (load_all read_file load (map trim_space ys) l)); [|apply H] end.
+    induction ys as [|x xs IH]; intros l; cbn [ne_for map load_all]; [reflexivity|].
+    destruct (read_file (trim_space x)) as [d|e].
+    + destruct (load l (trim_space x) d) as [e|].
+      * unfold sprintf_o, parse_err. cbn [sprintf Z.eqb Pos.eqb orb option_map bind app]. rewrite app_nil_r. reflexivity.
+      * cbn [bind]. apply IH.
+    + unfold sprintf_o, read_err. cbn [sprintf Z.eqb Pos.eqb orb option_map bind app]. rewrite app_nil_r. reflexivity.
+Qed.
+
+Lemma gen_e_text_ok : e_text_ok gen_e_text.
+Proof. exists gen_e_head, gen_e_tail. split; [reflexivity|]. split; vm_compute; reflexivity. Qed.
